@@ -268,7 +268,7 @@ def x5(ctx):
     es = crate.method("extract::Extractor", "extract")
     if len(es) != 1:
         raise mir.AnchorMissing("Extractor::extract")
-    b = es[0]
+    b = mir.inline_view(crate, es[0], keep=("extract", "apply_slotmap", "apply_slotmap_partial", "apply_slotmap_fresh", "find_applied_id"))
     ren = [c for c in b.calls if c.callee and c.callee.name in ("apply_slotmap", "apply_slotmap_partial", "apply_slotmap_fresh") and not b.blocks[c.bb]["cleanup"]
            and role_mentions_field(b.role_of_operand(c.args[0]), "map")]
     if not ctx.floor("renamings of the stored node in extract", len(ren), 1):
@@ -285,11 +285,11 @@ def x5(ctx):
         ctx.check(ok, "fresh-filling-renaming", "the stored node is renamed with apply_slotmap_fresh",
                   "Extractor::extract renames the stored node with %s although stored nodes (class_nf) can carry redundant slots the invocation does not cover: panics with 'index missing' instead of using a brand-new slot" % c.callee.name, where_of(b, c.bb))
     # recursion: children extracted from the renamed node's own children, in order
-    rec = [c for c in b.all_calls() if c.callee and c.callee.target == b.id]
+    rec = [c for c in b.all_calls() if c.callee and c.callee.target == es[0].id]
     ctx.check(len(rec) >= 1, "recurses-on-children", "extract recurses on the children of the renamed node", "extract no longer recurses on the node's children", where_of(b))
     gb = crate.method("extract::Extractor", "get_best_cost")
     if gb:
-        g = gb[0]
+        g = mir.inline_view(crate, gb[0])
         r = [strip_role(g.role_of_rvalue(d["rv"])) if d["kind"] == "assign" else None for d in g.defs().get(0, [])]
         rr = [g.role_of_operand(d["call"].args[0]) for d in g.defs().get(0, []) if d["kind"] == "call" and d["call"].args]
         ok = any(isinstance(x, tuple) and role_mentions_field(x, "map") and any(isinstance(y, tuple) and y[0] == "field" and y[2] == "1" for y in role_walk(x)) for x in rr + [x for x in r if x])
